@@ -523,7 +523,7 @@ class _Prop:
         "forced; resolve_aliases x external x implicit; by name, by path, missing package). Static ops are checked "
         "with audit events, import seams, sentinels, sys.modules and the tree; every op is checked for sys.path "
         "identity+contents and cwd. Non-trivial = every run (each contains at least one judged op); distinct = "
-        "distinct (api/mode/outcome trace, world fault layout)."
+        "distinct (api/mode/outcome trace, world fault layout). Also drawn: sub-module names that collide with imported stdlib modules, chains of external packages, compiled modules in any package, `check` / `griffe check` operations over a Git repository built from the package (with and without base_ref), histories that keep sys.modules between operations."
     )
     COMPONENTS = {
         "real": ["_griffe.loader", "_griffe.importer (sys_path, dynamic_import)", "_griffe.agents.inspector", "_griffe.finder", "_griffe.cli (dump, main)", "CPython import system executing the generated hostile modules"],
